@@ -2,13 +2,13 @@ SPECIFICATION MCSpec
 CONSTANTS
   Pods = {1, 2}
   Reqs = {1, 2, 3}
-  Enis = {1, 2}
+  Enis = {1}
   A4 = {1, 2}
-  A6 = {}
+  A6 = {101, 102}
   Enforce = {"C01", "C06", "C07"}
   MCCap = 2
-  MCMaxEni = 2
-  MCV6 = FALSE
+  MCMaxEni = 1
+  MCV6 = TRUE
   MaxLen = 0
   GenOn = FALSE
 INVARIANTS Exclusive HeldBacked HeldNotUnassigned QuotaAddr QuotaEni
